@@ -4,7 +4,8 @@ from __future__ import annotations
 import ast
 
 from sa.selftest import Mutant, Silent
-from sa.source import AnalysisError
+from sa.astx import walk_local
+from sa.source import AnalysisError, methods
 from sa.props._lib_e_machine import ObjV, Opaque, PyRaise, exc_name
 from sa.props._lib_e import http_interp
 from sa.props._lib_e_struct import c21_flow_control_siblings, c21_channel, c21_request, c21_transport_effects, structural
@@ -491,6 +492,7 @@ def _notify(ctx, h):
 RULE_KINDS = {
     "typestate/": "structural",          # dominance / must-precede / who-may-write on the inlined view
     "callgraph/": "structural",          # transport effects closed over the intra-class call graph
+    "handover/": "structural",           # CFG reachability after the hand-over call + uses-the-channel closure over the intra-class call graph
     "notify/": "structural",             # who-may-write, take-then-fire, must-precede
     "valuation/": "finite-exhaustive",   # every truth assignment of the guards of the (inlined) method, decided by partial evaluation
     "pipeline/": "bounded",              # interpreted scenarios
@@ -508,9 +510,99 @@ def check(ctx):
         _pipelining(ctx, Harness(ctx))
     with ctx.section("notifyFinish"):
         _notify(ctx, Harness(ctx))
+    with ctx.section("handover"):
+        _handover(ctx)
+
+
+def _handover(ctx):
+    """`channel.requestDone(request)` is the hand-over point: it replays the buffered pipelined bytes synchronously, so the next request is parsed and handed to the
+    application inside that call.  'the next only after the previous response has finished' therefore needs the finishing request to have let go of the channel
+    before the call: in every Request method, nothing that runs after the hand-over uses self.channel / self.transport, directly or through a Request method that does
+    (producer registration lives on the channel: a leftover producer unregistered after the hand-over is still registered while the next request renders, and
+    HTTPChannel.registerProducer raises out of finish() before the notifyFinish loop runs)."""
+    cls = ctx.cls(HTTP, "Request")
+    ms = methods(cls)
+    CH = {"channel", "transport"}
+
+    def self_attr_loads(node):
+        return [x for x in walk_local(node) if isinstance(x, ast.Attribute) and isinstance(x.value, ast.Name) and x.value.id == "self" and x.attr in CH
+                and not isinstance(x.ctx, ast.Del)]
+
+    def self_calls(node):
+        return [x.func.attr for x in walk_local(node) if isinstance(x, ast.Call) and isinstance(x.func, ast.Attribute) and isinstance(x.func.value, ast.Name)
+                and x.func.value.id == "self" and x.func.attr in ms]
+
+    def is_done_call(x):
+        # self.channel.requestDone(self), or the same through a local holding the channel
+        return (isinstance(x, ast.Call) and isinstance(x.func, ast.Attribute) and x.func.attr == "requestDone" and len(x.args) == 1
+                and isinstance(x.args[0], ast.Name) and x.args[0].id == "self")
+
+    # methods that use the channel, and methods that hand over, both closed over self.<method>() calls
+    uses = {n for n, f in ms.items() if any(self_attr_loads(st) for st in f.body)}
+    hands = {n for n, f in ms.items() if any(is_done_call(x) for st in f.body for x in walk_local(st))}
+    ctx.need(hands, "a Request method calling self.channel.requestDone")
+    changed = True
+    while changed:
+        changed = False
+        for n, f in ms.items():
+            called = {c for st in f.body for c in self_calls(st)}
+            if n not in uses and called & uses:
+                uses.add(n); changed = True
+            if n not in hands and called & hands:
+                hands.add(n); changed = True
+    sites = 0
+    for n in sorted(hands):
+        f = ms[n]
+        g = ctx.cfg(f)
+        at = g.find(lambda x: is_done_call(x) or (isinstance(x, ast.Call) and isinstance(x.func, ast.Attribute) and isinstance(x.func.value, ast.Name)
+                                                   and x.func.value.id == "self" and x.func.attr in hands and x.func.attr != n))
+        if not at:
+            continue
+        sites += len(at)
+        after = g.reach(at, include_srcs=False)
+        bad = []
+        for i in sorted(after):
+            nd = g.node(i)
+            if nd.ast is None or i in at and False:
+                continue
+            roots = [nd.ast]
+            if nd.kind == "for":
+                roots = [nd.ast.iter, nd.ast.target]
+            elif nd.kind == "with":
+                roots = [it.context_expr for it in nd.ast.items]
+            elif nd.kind == "test":
+                roots = [nd.ast]
+            elif isinstance(nd.ast, (ast.If, ast.While, ast.Try, ast.For, ast.With, ast.FunctionDef, ast.AsyncFunctionDef, ast.ClassDef)):
+                continue
+            for r in roots:
+                if self_attr_loads(r):
+                    bad.append((nd, "uses self." + self_attr_loads(r)[0].attr))
+                else:
+                    for c in self_calls(r):
+                        if c in uses and c not in hands:
+                            bad.append((nd, f"calls self.{c}(), which uses the channel"))
+        cons = Q + "Request." + n + " | after self.channel.requestDone(self)"
+        if bad:
+            for nd, what in bad:
+                if nd.id in at and what.startswith("uses self.channel"):
+                    continue          # the hand-over statement itself
+                ctx.violation("handover/channel-released-before-requestDone", ctx.construct(Q + "Request." + n, nd.ast),
+                              f"`{nd.text()[:80]}` runs after the channel was handed to the next pipelined request and {what}: the next request is parsed and rendered "
+                              "inside requestDone(), i.e. before the previous response has let go of the connection (a leftover producer is still registered on the "
+                              "channel, so the next request's registerProducer raises out of finish() and the notifyFinish Deferreds never fire)")
+        if not any(not (nd.id in at and what.startswith("uses self.channel")) for nd, what in bad):
+            ctx.ok("handover/channel-released-before-requestDone", cons, f"{len(after)} CFG nodes after the hand-over; none uses self.channel / self.transport or a method in "
+                   f"{{{', '.join(sorted(uses - hands))[:200]}}}")
+    ctx.floor("handover/channel-released-before-requestDone", sites, 1, "hand-over sites")
 
 
 MUTANTS = [
+    Mutant("channel-touched-after-handover", HTTP, "        self.channel.requestDone(self)\n        del self.channel\n",
+           "        self.channel.requestDone(self)\n        self.channel._networkProducer.resumeProducing()\n        del self.channel\n",
+           expect_rule="handover/channel-released-before-requestDone"),
+    Mutant("leftover-producer-released-after-handover", HTTP, "            self.unregisterProducer()\n        self.channel.requestDone(self)\n        del self.channel\n",
+           "            leftover = True\n        else:\n            leftover = False\n        self.channel.requestDone(self)\n        if leftover:\n            self.unregisterProducer()\n        del self.channel\n",
+           expect_rule="handover/channel-released-before-requestDone"),
     Mutant("replay-postponed-while-transport-paused", HTTP, "            data = b\"\".join(self._dataBuffer)\n            self._dataBuffer = []\n            self.setLineMode(data)",
            "            if self._waitingForTransport:\n                self.setLineMode()\n            else:\n                data = b\"\".join(self._dataBuffer)\n                self._dataBuffer = []\n                self.setLineMode(data)",
            more=[(HTTP, "        if not self._handlingRequest:\n            self._networkProducer.resumeProducing()\n\n    def _send100Continue", "        if not self._handlingRequest:\n            self._networkProducer.resumeProducing()\n            if self._dataBuffer:\n                held, self._dataBuffer = b\"\".join(self._dataBuffer), []\n                self.setLineMode(held)\n\n    def _send100Continue")]),
@@ -551,6 +643,8 @@ MUTANTS = [
     Mutant("finish-fires-errback", HTTP, "            d.callback(None)", "            d.errback(None)"),
 ]
 SILENT = [
+    Silent("handover-content-closed-first", HTTP, "        self.channel.requestDone(self)\n        del self.channel\n        if self.content is not None:\n            try:\n                self.content.close()\n            except OSError:\n                # win32 suckiness, no idea why it does this\n                pass\n            del self.content\n",
+           "        if self.content is not None:\n            try:\n                self.content.close()\n            except OSError:\n                pass\n            del self.content\n        self.channel.requestDone(self)\n        del self.channel\n"),
     Silent("400-reached-through-a-class-level-table-of-functions", HTTP, '    def _maybeChooseTransferDecoder(self, header, data):\n',
            '    _onFramingError = {"reject": _failChooseTransferDecoder}\n\n    def _maybeChooseTransferDecoder(self, header, data):\n', more=[(HTTP, '            if not data.isdigit():\n                return self._failChooseTransferDecoder()\n', '            if not data.isdigit():\n                return self._onFramingError["reject"](self)\n')]),
     Silent("notifications-fired-by-shared-helper-in-place", HTTP, "        for d in self.notifications:\n            d.callback(None)\n        self.notifications = []",
